@@ -306,6 +306,18 @@ func scenarioHeldReaders(cw *cq.Writer, w *World, rng *rand.Rand, desc map[strin
 		w.O.HoldMergeIntro = true // merges wait at their introduction while batches supersede what they merged
 		desc["churn"] = true
 	}
+	// some runs inject transient persist failures: the persister's error paths release and re-take
+	// snapshot references while readers are held
+	var faults *faultPlan
+	if !churn && w.O.DirKind == "sim" && rng.Intn(3) == 0 {
+		faults = newFaultPlan(rng)
+		faults.sticky = false
+		faults.class = []string{"persist.seg", "persist.snp", "load.seg"}[rng.Intn(3)]
+		faults.fromN = rng.Intn(20)
+		desc["faults"] = faults.describe()
+		w.config()
+		w.SetFaultAt(faults.at)
+	}
 	if err := w.Open(); err != nil {
 		return err
 	}
@@ -377,7 +389,10 @@ func scenarioHeldReaders(cw *cq.Writer, w *World, rng *rand.Rand, desc map[strin
 			}
 		}
 		if err := w.Do(b, false); err != nil {
-			return err
+			if faults == nil {
+				return err
+			}
+			faults.clearTransient()
 		}
 		if churn && i%(w.O.Universe+1) == w.O.Universe {
 			w.ReleaseMerge()
@@ -409,6 +424,9 @@ func scenarioHeldReaders(cw *cq.Writer, w *World, rng *rand.Rand, desc map[strin
 			hs[k].r.Close()
 			hs = append(hs[:k], hs[k+1:]...)
 		}
+	}
+	if faults != nil {
+		faults.clearAll()
 	}
 	if churn {
 		for k := 0; k < 64; k++ {
